@@ -57,6 +57,11 @@ class Simulation:
     raw_parameters: list[dict[str, float]]
     raw_args: list[pd.DataFrame] = field(default_factory=list)
 
+    def __post_init__(self) -> None:
+        """Own the segment lists: whoever produced them may keep appending to its own."""
+        self.raw_variables = list(self.raw_variables)
+        self.raw_parameters = list(self.raw_parameters)
+
     def __repr__(self) -> str:
         """Return default representation."""
         return pformat(self)
